@@ -620,7 +620,9 @@ type obsCmpSpace struct {
 // obsRepPairs: the representative (left, right) pairs used where the product is bounded.
 var obsRepPairs = map[bool][][2]string{
 	false: {{"searchable-acrablock", "string"}, {"searchable-acrablock", "placeholder"}, {"searchable-acrablock", "other-searchable-column"},
-		{"searchable-acrablock", "plain-column"}, {"tokenized", "string"}, {"plain", "string"}},
+		{"searchable-acrablock", "plain-column"}, {"tokenized", "string"}, {"plain", "string"},
+		// an unprotected comparison whose right side is an expression, next to searchable conditions
+		{"plain", "underscore-binary-string"}},
 	true: {{"t1-searchable-acrablock", "string"}, {"t1-searchable-acrablock", "placeholder"}, {"t1-searchable-acrablock", "other-table-searchable-column"},
 		{"t1-searchable-acrablock", "other-table-plain-column"}, {"t1-tokenized", "string"}, {"t2-shared-name-plain", "string"}},
 }
@@ -651,7 +653,7 @@ func isRepPair(join bool, l, r string) bool {
 const obsRuleQuick = "A: every statement kind x FROM 'plain' x every left side x every operator x every right side (less the rarer spellings: " +
 	"quote inside, negative integer, function call, sum, sub-select, same column, double-quoted, cast placeholder), context 'alone'; " +
 	"A2: every kind x every other FROM variant x every left side x operators {=, !=, <, like, in, is null} x right sides {string, placeholder, other searchable column, plain column}, context 'alone'; " +
-	"B: every kind x FROM 'plain' x 6 representative (left, right) pairs (searchable/string, searchable/placeholder, searchable/searchable column, searchable/plain column, tokenized/string, plain/string) x every operator x every context; " +
+	"B: every kind x FROM 'plain' x 7 representative (left, right) pairs (searchable/string, searchable/placeholder, searchable/searchable column, searchable/plain column, tokenized/string, plain/string, plain/_binary string) x every operator x every context; " +
 	"C: every kind x FROM 'plain' x every left x every right (as in A) x operators {=, <, like} x contexts {operands exchanged, in sub-select}"
 const obsRuleThorough = "A: every statement kind x every FROM variant x every left side x every operator x every right side, context 'alone'; " +
 	"B: every kind x FROM 'plain' x every left side x every operator x every right side x every context (the full product for FROM 'plain'); " +
